@@ -115,11 +115,19 @@ def gen(rng, tier):
         if A == 0 and "s" in order and x != "async":
             order = "r"
         add("tls", case_ops(x, 1, role, T, kind, A, 30 if A == 0 else rng.choice([0, 30]), 0, 0, 0, order, 0, rng.randrange(10**6), hs=kk))
-    # F11 (fixed by b68eb89): TLS server, client sends and closes before the server answered - the data must still arrive
-    ops = case_ops("buffered", 1, "srv", 30, "close", 20000, 30000, 16385, 0, 0, "rs", 0, 4)
-    add("tls", ops)
-    ops = case_ops("async", 1, "srv", 0, "close", 0, 3000, 3000, 0, 0, "r", 0, 8)
-    add("tls", ops)
+    # F11 (fixed by b68eb89): TLS server that is busy after its first flight; the client completes the handshake, sends
+    # and closes orderly - the data must still arrive before the closure is reported
+    for x, T, B in (("buffered", 30, 16385), ("basic", 0, 1000), ("async", 0, 3000), ("basic", -1, 100)):
+        ops = case_ops(x, 1, "srv", T, "close", 0, B, B, 0, 0, "r", 0, 4)
+        ops[1] = "pre w=%d a=0 r=0 hsfull=0 xcalls=%d" % (B, 3 if x == "async" else 2)
+        add("tls", ops)
+    # the failure is seen by send() first (POLLIN would otherwise always win in DoOneSocketTask): the promise must fail
+    for tls in (0, 1):
+        for kind in ("close", "rst"):
+            ops = ["setup x=async tls=%d role=cli T=0 A=5000 B=0 seed=%d rsz=4096" % (tls, rng.randrange(10**6)),
+                   "pre w=0 a=100 r=100 hsfull=1", "inject sys=send err=32", "after order=s big=0 cap=10",
+                   "kill kind=%s" % kind, "after order=r big=0 cap=10", "final"]
+            add("tls" if tls else "plain", ops)
     return cases
 
 
